@@ -218,6 +218,68 @@ def handle_violation(prop, job, r, tier, builddir, log, here, wit_opts=None):
 REPLAYERS = {}
 
 
+def _harness_scalars(trace):
+    """last value of every harness-level scalar / struct member assignment in a JSON trace"""
+    vals = {}
+    for st in trace:
+        if st.get("stepType") != "assignment":
+            continue
+        lhs = st.get("lhs") or ""
+        v = st.get("value") or {}
+        if "data" in v:
+            vals[lhs] = _num(v["data"]) if _num(v["data"]) is not None else v["data"]
+        elif "members" in v:
+            for k, x in _struct_members(v).items():
+                vals[lhs + "." + k] = x
+    return vals
+
+
+def _build_native(here, src, exe, repo_sources=None):
+    """compile a replay program together with the needed library sources of /repo's working tree
+    (out of tree, nothing is written under /repo); repo_sources=None links the in-tree libhwloc.so instead"""
+    bdir = os.path.join(here, ".build", "replay"); os.makedirs(bdir, exist_ok=True)
+    out = os.path.join(bdir, exe)
+    cmd = ["gcc", "-g", "-O0", "-w", "-I" + os.path.join(runner.REPO, "include"), "-I" + os.path.join(runner.REPO, "hwloc"),
+           os.path.join(here, "replay", src)]
+    if repo_sources is None:
+        so = os.path.join(runner.REPO, "hwloc", ".libs", "libhwloc.so")
+        subprocess.run(["make", "-C", os.path.join(runner.REPO, "hwloc"), "-j8"], capture_output=True)
+        cmd += [so, "-Wl,-rpath," + os.path.dirname(so)]
+    else:
+        cmd += [os.path.join(runner.REPO, x) for x in repo_sources]
+    cmd += ["-o", out]
+    p = subprocess.run(cmd, capture_output=True, text=True)
+    return (out if p.returncode == 0 else None), p.stderr[-500:]
+
+
+def replay_printers(here, job, r, f, trace, log):
+    vals = _harness_scalars(trace)
+    fn = job.entry.replace("hp_", "")
+    size = vals.get("size") or 0
+    count = vals.get("verif_set.ulongs_count") or 1
+    inf = 1 if vals.get("verif_set.infinite") else 0
+    words = vals.get("verif_words.w") or vals.get("return_value_nondet_words.w") or []
+    for k, v in vals.items():
+        m = re.match(r"verif_words\.w\[(\d+)l?\]$", k)
+        if m:
+            i = int(m.group(1))
+            while len(words) <= i:
+                words.append(0)
+            words[i] = v
+    words = [(w or 0) & (2**64 - 1) for w in words][:count] + [0] * max(0, count - len(words))
+    usenull = 1 if (vals.get("buf") in (0, "NULL", None) and size == 0) else 0
+    exe, err = _build_native(here, "printers_replay.c", "printers_replay", ["hwloc/bitmap.c"])
+    inputs = {"function": fn, "size": size, "use_null": usenull, "infinite": inf, "count": count, "words": ["%#x" % w for w in words]}
+    if not exe:
+        return False, "native replay build failed: " + err, inputs
+    argv = [exe, fn, str(size), str(usenull), str(inf), str(count)] + ["%#x" % w for w in words]
+    try:
+        p = subprocess.run(argv, capture_output=True, text=True, timeout=60)
+    except subprocess.TimeoutExpired:
+        return True, "REPRODUCED: native call did not terminate within 60 s", inputs
+    return p.returncode == 1, (p.stdout + p.stderr)[-1500:], inputs
+
+
 def replay_unwind_extra():
     # witness mode allows MAXW=32 words but binds <= WITN(4) stored words; realloc fill loops may run up to 32 times
     return 30
@@ -253,6 +315,25 @@ def proof_lost_fallback(prop, job, r, tier, builddir, log, here):
     obligation there is a real counterexample; otherwise the property is undecided (PROOF-LOST)."""
     import copy
     out = {"violations": [], "summary": ""}
+    if job.mode == "plain" and job.fallback_plain:
+        # plain harness under loop contracts: same harness, loops unwound, smaller domain
+        fj = copy.copy(job)
+        fj.defines = dict(job.defines); fj.defines["VERIF_NO_LOOP_CONTRACTS"] = None
+        fj.defines.update(job.fallback_plain.get("defines", {}))
+        fj.plain_loop_contracts = False; fj.fallback_plain = None
+        fj.unwind = job.fallback_plain.get("unwind", 8); fj.name = job.name + ".fb"; fj.split = 0
+        r2 = runner.execute(fj, tier, builddir, fj.maxw_for(tier), "sat", log)
+        bad = [x for x in r2["failed"] if ".unwind." not in (x.get("property") or "")]
+        desc = "bounded fallback (%s, unwind %d)" % (",".join("%s=%s" % kv for kv in job.fallback_plain.get("defines", {}).items()), fj.unwind)
+        if r2["status"] in ("tool-error", "timeout"):
+            out["summary"] = desc + " did not finish: " + r2["status"]
+        elif bad:
+            r2["failed"] = bad
+            out["violations"] = handle_violation(prop, fj, r2, tier, builddir, log, here)
+            out["summary"] = desc + " refuted " + str(bad[0].get("property"))
+        else:
+            out["summary"] = desc + " passed %d obligations" % r2["discharged"]
+        return out
     if job.mode != "contract" or not job.fallback:
         out["summary"] = "no fallback for this job"
         return out
@@ -314,3 +395,5 @@ def replay_file(path, log):
 
 
 REPLAY_FILE_HANDLERS = {}
+
+REPLAYERS["printers"] = replay_printers
